@@ -15,16 +15,14 @@ Oracle (no model): on the real engine's rows - the parent task ends in the child
   input (declared) or param (undeclared) with its value; index = item index; for names of the workbook grammar the
   definition found is the workbook-relative one, else the global one (caller's namespace first).
 
-FINDING on the unchanged tree (model faithful: C09_sys_params_refuted; signature subwf:system-param-overridden):
-  an undeclared input key named root_execution_id / namespace / index (also task_execution_id, notify) REPLACES the
-  system param set by WorkflowAction.schedule, so the child records another root / namespace / index
-  (a value that is not an existing execution id makes start_task die with DBReferenceError and leaves the task IDLE).
-
-  Minimal patch tried in a scratch worktree (refuse such a key with InputException in WorkflowAction.schedule):
-  the oracle is silent, the calling task ends ERROR with a declared message, test_subworkflows.py passes.
+FIXED finding (repo commit ef52716f "sub-workflow input cannot override the parameters linking it to its parent";
+  before it an undeclared input key named root_execution_id / namespace / index / task_execution_id / notify REPLACED the
+  system param set by WorkflowAction.schedule): such a key is now refused with InputException and the calling task fails.
+  The old witnesses stay in SPLIT_CORPUS / ROW_CASES as regression cases: they must be refused
+  (oracle signature subwf:system-param-overridden if a child is started with a foreign value again).
 
 Self-test (mutations of the anchored source in a scratch worktree; `VERIF_REPO=/tmp/wt_C09b ./check C09`; each gave a
-VIOLATION line with the signature shown, in addition to the finding above):
+VIOLATION line with the signature shown; run before the fix, next to the then open finding):
   M1 engine/actions.py   the `wf_params[k] = v` line of the split loop dropped          subwf:undeclared-input-dropped
   M2 engine/actions.py   `root_execution_id = parent.root_execution_id or parent.id` -> `= parent.id`
                                                                                         subwf:system-param-wrong (depth 2)
@@ -368,14 +366,29 @@ SPLIT_CORPUS = [
 ]
 
 
-def split_oracle(ctx, case, inp, params):
-    """The property's sentences on what the child is started with."""
+def reserved_hit(case):
+    """undeclared input keys that carry the name of a param the engine sets for this call"""
+    res = {'root_execution_id', 'task_execution_id', 'index', 'namespace'} | ({'notify'} if case['notify'] else set())
+    return sorted(k for k in case['input'] if k in res and k not in case['declared'])
+
+
+def split_oracle(ctx, case, started):
+    """The property's sentences on what the child is started with (started: list of (input, params, ex_id))."""
     rep = {'kind': 'param_split', 'case': case}
+    hit = reserved_hit(case)
+    if not started:
+        if not hit:
+            ctx.fail('subwf:call-refused', 'the sub-workflow call is refused although no input key collides with an engine parameter', rep)
+        return
+    if len(started) != 1:
+        ctx.fail('subwf:started-twice', 'the sub-workflow is started %d times by one call' % len(started), rep)
+        return
+    inp, params = started[0][0], started[0][1]
     for k, v in case['input'].items():
         if k in case['declared']:
-            if inp.get(k) != v or (k in params and k not in SYS):
+            if inp.get(k) != v:
                 ctx.fail('subwf:declared-input-lost', 'declared input key %r=%r does not reach the child as input (input %r)' % (k, v, inp), rep)
-        elif params.get(k) != v or k in inp:
+        elif k not in hit and (params.get(k) != v or k in inp):
             ctx.fail('subwf:undeclared-input-dropped', 'input key %r=%r not declared by the child is not passed on as an execution '
                      'parameter (params %r, input %r)' % (k, v, params, inp), rep)
     want = {'root_execution_id': case['parent_root'] or 90, 'task_execution_id': 91, 'index': case['index'], 'namespace': 92}
@@ -383,7 +396,7 @@ def split_oracle(ctx, case, inp, params):
         want['notify'] = 93
     for k, v in want.items():
         if params.get(k) != v:
-            if k in case['input'] and k not in case['declared']:
+            if k in hit:
                 ctx.fail('subwf:system-param-overridden', 'the child is started with %s=%r instead of the engine\'s %r because the caller '
                          'passed an input key of that name that the child does not declare' % (k, params.get(k), v), rep)
             else:
@@ -397,21 +410,22 @@ def suite_param_split(ctx):
     for c in cases:
         sysx = '(sys_params (root_of %s 90) 91 %d 92 %s)' % (
             'None' if c['parent_root'] is None else '(Some %d)' % c['parent_root'], c['index'], '(Some 93)' if c['notify'] else 'None')
-        exprs.append('param_split %s %s %s' % (coq_list([coq_str(k) for k in c['declared']]), coq_dict(c['input']), sysx))
+        exprs.append('show_split (param_split %s %s %s)' % (coq_list([coq_str(k) for k in c['declared']]), coq_dict(c['input']), sysx))
     res = []
     for g in packed_eval('c09split', exprs):
-        res += [(parse_dict(a), parse_dict(b)) for a, b in core.re.findall(r'\(\[(.*?)\],\s*\[(.*?)\]\)', g)]
+        res += [((parse_dict(a), parse_dict(b)) if ok == 'true' else 'refused')
+                for ok, a, b in core.re.findall(r'\((true|false),\s*\(\[(.*?)\],\s*\[(.*?)\]\)\)', g)]
     assert len(res) == len(cases), (len(res), len(cases))
     shapes = {'sys_key_undeclared': 0, 'sys_key_declared': 0, 'plain': 0}
     for c, model in zip(cases, res):
         started = real_schedule(c)
-        impl = (started[0][0], started[0][1]) if len(started) == 1 else ('started %d times' % len(started),)
+        impl = (started[0][0], started[0][1]) if len(started) == 1 else ('refused' if not started else 'started %d times' % len(started))
         sk = [k for k in c['input'] if k in SYS]
         shapes['sys_key_undeclared' if any(k not in c['declared'] for k in sk) else ('sys_key_declared' if sk else 'plain')] += 1
         ctx.count('param_split', json.dumps(c, sort_keys=True), nontrivial=bool(c['input']))
         ctx.cov['disagreements_checked'] += 1
+        split_oracle(ctx, c, started)
         if len(started) == 1:
-            split_oracle(ctx, c, started[0][0], started[0][1])
             if started[0][2] is not None:
                 ctx.disagree('param_split', c, 'no execution id', started[0][2])
         if impl != model:
@@ -524,6 +538,7 @@ ROW_CASES = [
     ('items', 'ns1', {}, 'ok', True),
     ('flat', '', {'b': 1}, 'ok', False),
     ('flat', '', {'a': 1, 'root_execution_id': 'bogus'}, 'ok', False),
+    ('flat', '', {'a': 1, 'task_execution_id': 'bogus'}, 'ok', False),
 ]
 
 
@@ -582,6 +597,15 @@ def run_rows(case, seed=0):
 def rows_oracle(ctx, case, res):
     top, ns, inp, outcome, via_rpc = case
     rep = {'kind': 'subwf_rows', 'case': list(case)}
+    hit = sorted(k for k in inp if k in ('root_execution_id', 'task_execution_id', 'index', 'namespace'))
+    if hit and top != 'items':
+        tops = [r for r in res['rows'] if r['depth'] == 0]
+        if any(r['depth'] for r in res['rows']) or res['entry_errors'] or not tops or tops[0]['state'] != 'ERROR':
+            ctx.fail('subwf:system-param-overridden', 'caller input %r names engine parameters the child does not declare: the call must be '
+                     'refused and the calling workflow fail; observed %r, escaped errors %r' % (
+                         hit, [(r['name'], r['depth'], r['state'], r['root_ok'], r['ns_param'], r['index_rc']) for r in res['rows']],
+                         res['entry_errors']), rep)
+        return
     for r in res['rows']:
         if r['depth'] == 0:
             continue
@@ -605,9 +629,6 @@ def rows_oracle(ctx, case, res):
         kids = [r for r in res['rows'] if r['depth'] == 1]
         if sorted(k['index_rc'] for k in kids) != [0, 1, 2] or any(k['input'].get('a') != k['index_rc'] + 1 for k in kids):
             ctx.fail('subwf:system-param-wrong', 'with-items sub-workflows do not carry their item index: %r' % [(k['index_rc'], k['input']) for k in kids], rep)
-    if 'bogus' in inp.values() and res['entry_errors']:
-        ctx.fail('subwf:system-param-overridden', 'an input key named like a system param with a value that is no execution id makes '
-                 'start_task die with %r; the calling task is left behind' % (res['entry_errors'][:1],), rep)
 
 
 def suite_subwf_rows(ctx):
@@ -626,9 +647,12 @@ def suite_subwf_rows(ctx):
         if top == 'items' or any(not isinstance(v, int) for v in inp.values()):
             continue
         # the model's view of the first hand-over: declared [a, b], caller values as given
-        exprs.append('param_split ["a"; "b"] %s (sys_params 90 91 0 92 None)' % coq_dict(inp))
+        exprs.append('show_split (param_split ["a"; "b"] %s (sys_params 90 91 0 92 None))' % coq_dict(inp))
         idx.append(i)
-    model = dict(zip(idx, [parse_two_dicts(r) for r in core.coq_eval('c09rows', IMPORTS, exprs)]))
+    model = {}
+    for i, r in zip(idx, core.coq_eval('c09rows', IMPORTS, exprs)):
+        m = core.re.match(r'\((true|false),\s*\((.*)\)\)$', r)
+        model[i] = parse_two_dicts(m.group(2)) if m.group(1) == 'true' else None
     for i, c in enumerate(cases):
         res = run_rows(c, seed=i)
         ctx.count('subwf_rows', json.dumps(c, sort_keys=True))
@@ -637,6 +661,10 @@ def suite_subwf_rows(ctx):
         rows_oracle(ctx, c, res)
         if i in model:
             kid = next((r for r in res['rows'] if r['depth'] == 1), None)
+            if model[i] is None:
+                if kid is not None:
+                    ctx.disagree('subwf_rows', list(c), 'refused', 'child started: %r' % (kid['params'],))
+                continue
             minp, mpar = model[i]
             if kid is None:
                 if 'a' in c[2]:
@@ -673,9 +701,7 @@ def run(ctx):
 def search(ctx):
     rng = ctx.rng
     for c in SPLIT_CORPUS + [gen_split_case(rng) for _ in range(5000)]:
-        st = real_schedule(c)
-        if len(st) == 1:
-            split_oracle(ctx, c, st[0][0], st[0][1])
+        split_oracle(ctx, c, real_schedule(c))
     for i, c in enumerate(ROW_CASES):
         rows_oracle(ctx, c, run_rows(c, seed=i))
     for s, i in [(s, i) for s in ('SUCCESS', 'ERROR', 'CANCELLED') for i in (None, 'm')]:
@@ -714,8 +740,8 @@ def replay(obj):
     elif kind == 'param_split':
         c = r['case']
         st = real_schedule(c)
-        print('WorkflowAction.schedule(%r) started the child with input=%r params=%r' % (c, st[0][0], st[0][1]))
-        split_oracle(ctx, c, st[0][0], st[0][1])
+        print('WorkflowAction.schedule(%r) -> %s' % (c, 'refused (InputException)' if not st else 'child started with input=%r params=%r' % (st[0][0], st[0][1])))
+        split_oracle(ctx, c, st)
     elif kind == 'resolve':
         driver().reset(0)
         defs = [tuple(x) for x in r['definitions']]
